@@ -479,7 +479,10 @@ def _write_external_data(
         if isinstance(tensor, _core.ExternalTensor)
         and _paths_refer_to_same_file(tensor.path, destination_path)
     ]
-    destination_dir = os.path.dirname(destination_path) or "."
+    # mkdtemp() returns a lexically normalised spelling of the directory it creates. That
+    # names another directory when the destination directory has a ".." after a symbolic
+    # link, so the directory is resolved first
+    destination_dir = os.path.realpath(os.path.dirname(destination_path) or ".")
     temporary_dir = tempfile.mkdtemp(
         dir=destination_dir,
         prefix=f".{os.path.basename(destination_path)}.",
